@@ -30,7 +30,7 @@ var anchorFiles = map[string]bool{
 	"pkg/types/map.go": true, "pkg/encoding/assembler.go": true, "pkg/encoding/group.go": true,
 }
 
-var pkgs = []string{"./pkg/symbol", "./pkg/store", "./pkg/process", "./pkg/port", "./pkg/packet", "./pkg/runtime", "./pkg/types", "./pkg/encoding", "./pkg/template", "./pkg/spec", "./pkg/value"}
+var pkgs = []string{"./pkg/symbol", "./pkg/store", "./pkg/process", "./pkg/port", "./pkg/packet", "./pkg/runtime", "./pkg/types", "./pkg/encoding", "./pkg/template", "./pkg/spec", "./pkg/value", "./pkg/node", "./pkg/hook", "./pkg/scheme"}
 
 func main() {
 	if len(os.Args) != 3 {
